@@ -53,6 +53,21 @@ prop("C05", [
 ], explanation="no-panic / no-overflow / in-bounds / termination of the network-facing decoders for all byte strings of all lengths",
     assumptions=["async handlers are verified as a single task; process-level liveness ('still answers the next request') is not decided, only its in-process cause (a panic)"])
 
+prop("C06", [
+    dict(engine="verus", unit="cache"),
+    dict(engine="verus", unit="dnsttl"),
+    dict(engine="kani", sets=["dns_ttl"]),
+], explanation="cache map invariant (lifetime <= smallest TTL), hit window, exact key, exact TTL ageing",
+    assumptions=["tokio::time::Instant/Duration modelled with a nanosecond view; Instant - Instant saturates at zero (std semantics)",
+                 "RwLock<Cache> seen by one task at a time (lock invariant = map invariant); no interleaving modelled",
+                 "DNSPkt::get_expiry contract assumed by unit cache; checked only bounded (Kani dns_ttl shapes)"])
+
+prop("C15", [
+    dict(engine="verus", unit="router"),
+], explanation="longest matching suffix decides (argmax over all matching (route,suffix) pairs), for all route tables and names",
+    assumptions=["configuration read through the RwLock is a snapshot (single task)",
+                 "results produced by the resolver below the router are tagged with the server they were sent to (uninterpreted forwarded_to); locally produced errors are never forwarded (axiom)"])
+
 prop("C07", [
     dict(engine="kani", sets=["net_addr", "net_udp_addr"]),
 ], explanation="narrow clause of C07: source-address control message carries the receiving address (all 2^32/2^128 addresses)")
